@@ -448,7 +448,10 @@ def second_rounding(n, prec=28):
         f28 = float(Context(prec=prec).multiply(d, Context(prec=prec).power(Decimal(10), pe)))
     except OverflowError:
         f28 = math.inf if nm > 0 else -math.inf
-    return dict(digits=digits, near=near, dr28=(f28 != f))
+    end = None
+    if nm:
+        end = "overflow" if f in (math.inf, -math.inf) else "underflow" if f == 0.0 else "subnormal" if abs(f) < 2.0 ** -1022 else None
+    return dict(digits=digits, near=near, dr28=(f28 != f), end=end)
 
 
 def gen_num(r, allow_lit=0.0, small=False):
@@ -886,6 +889,18 @@ def midpoint_cases(seed):
                 x = gen_mid(r, forms=[form], pe=pe, side=side)
                 c.append(one(styles[i % 3], [["an", place(FLOAT_FIELDS[i % len(FLOAT_FIELDS)], x)]]))
                 i += 1
+    # the ends of the range: beside the overflow threshold (midpoint of the largest double and 2^1024), beside the midpoints
+    # of the smallest subnormals (0 | 2^-1074 | 2^-1073), at the subnormal / normal border, far beyond both ends
+    j = 0
+    for M, E in [(2 ** 53 - 1, 971), (0, -1074), (1, -1074), (2 ** 52 - 1, -1074), (2 ** 52, -1074)]:
+        for side in (1, -1):
+            form, pe = [("pre", 24 if E > 0 else -24), ("dec", 0), ("str", 0), ("dmul", 3 if E > 0 else -3)][j % 4]
+            x = mid_num(M, E, side, [29, 33, 40][j % 3], pe, form, neg=(j % 5 == 4))
+            c.append(one(styles[j % 3], [["an", place(FLOAT_FIELDS[j % len(FLOAT_FIELDS)], x)]]))
+            j += 1
+    for x in (["pre", 1, 400, 0, "dec"], ["pre", -1, 400, 0, "str"], ["pre", 1, -400, 0, "dec"], ["pre", 17, 300, 9, "pre"], ["pre", 3, -330, -15, "dmul"]):
+        c.append(one(styles[j % 3], [["an", place(FLOAT_FIELDS[j % len(FLOAT_FIELDS)], x)]]))
+        j += 1
     for j, form in enumerate(MID_FORMS * 2):          # the same many-digit values as Param / Options values (exact decimals)
         r = core.rng(seed, "C17", "midpoint-param", j)
         x = gen_mid(r, forms=[form])
@@ -911,6 +926,7 @@ class Cover:
         self.form = {f: 0 for f in MID_FORMS}
         self.prefix = {str(p): 0 for p in PREFIXES}
         self.dr28 = 0
+        self.ends = dict(overflow=0, subnormal=0, underflow=0)
         self.near = 0
         self.long = 0
         self.fields = 0
@@ -936,6 +952,8 @@ class Cover:
                         self.fields += 1
                         pr = self.props(n)
                         self.long += pr["digits"] > 28
+                        if pr["end"]:
+                            self.ends[pr["end"]] += 1
                         if pr["digits"] > 28 and pr["near"]:
                             self.near += 1
                             self.dr28 += pr["dr28"]
@@ -949,6 +967,7 @@ class Cover:
         t.update({f"form:{k}": v for k, v in self.form.items()})
         t.update({f"prefix:{k}": v for k, v in self.prefix.items()})
         t["dr28-sensitive-fields"] = self.dr28
+        t.update({f"range-end:{k}": v for k, v in self.ends.items()})
         return t
 
 
